@@ -66,7 +66,8 @@ def _gen_worker(task):
                            'line': fn.lineno, 'source_hash': source.func_source_hash(fn), 'paths': ex.stats['paths'],
                            'obligation_queries': len(obs), 'gen_seconds': round(time.time() - t0, 3)}
         out['paths'] = ex.stats['paths']
-        out['traces'] = (c.key, twin, repr(sorted(variant.items())), sorted(ex.path_traces))
+        out['traces'] = (c.key, twin, repr(sorted(variant.items())), sorted(ex.path_traces),
+                         {k: solve.build_sat_query(pc) for k, pc in ex.path_trace_pcs.items()})
         out['fchecks'] = ex.stats['feasibility_checks']
     except Unsupported as e:
         out['undecided'].append(('%s[%s]' % (c.key, twin), 'unsupported: %s' % e))
